@@ -87,6 +87,20 @@ pub fn single_term_contexts() -> Vec<&'static str> {
     ]
 }
 
+/// contexts in which ONE term occurs in two argument positions of the same atom (a multi-valued
+/// term takes its values independently in each position)
+pub fn repeated_term_contexts() -> Vec<&'static str> {
+    vec![
+        "r :- s({}, {}).",
+        "r :- not s({}, {}).",
+        "r :- not not s({}, {}), q(X).",
+        "r :- s({}, {}), q(X), q(Y).",
+        "s({}, {}) :- q(X), q(Y).",
+        "{s({}, {})} :- q(X).",
+        "r :- t({}, X, {}), q(X).",
+    ]
+}
+
 /// two-term contexts: comparisons and binary heads; `{0}` `{1}` `{R}`
 pub fn comparison_contexts() -> Vec<&'static str> {
     vec![
